@@ -522,7 +522,8 @@ class IdealPoint(Point):
 
 
         result = utils.zeros(np.array(theta).shape + (dimension + 1,),
-                             like=like, dtype=dtype, base_ring=base_ring)
+                             like=like, dtype=dtype, base_ring=base_ring,
+                             integer_type=False)
 
         result[..., 0] = one
 
